@@ -124,7 +124,7 @@ func genArenaWalk(r *Rng) Sx {
 // while their parents hold values, parents reading their operands afterwards
 func genArenaLimit(r *Rng) Sx {
 	var ops SL
-	depth := r.Range(2, 4)
+	depth := r.Range(2, 3)
 	for d := 0; d < depth; d++ {
 		ops = append(ops, L(I(0)))
 		n := 1024
@@ -156,9 +156,16 @@ func genArenaLimit(r *Rng) Sx {
 func genMem(r *Rng) Sx {
 	var ops SL
 	ln := 0
+	big := r.Chance(1, 8) // sizes around the 16 KiB pooling limit (costly for the list model: fewer, shorter)
 	size := func() int {
+		if !big {
+			if r.Chance(1, 4) {
+				return 32 * r.Intn(40)
+			}
+			return r.Intn(2049)
+		}
 		switch x := r.Intn(20); {
-		case x < 12:
+		case x < 8:
 			return r.Intn(2049)
 		case x < 17:
 			return 16384 + r.Range(-96, 96)
@@ -169,6 +176,9 @@ func genMem(r *Rng) Sx {
 		}
 	}
 	n := r.Range(5, 40)
+	if big {
+		n = r.Range(4, 14)
+	}
 	for i := 0; i < n; i++ {
 		switch x := r.Intn(100); {
 		case x < 18:
@@ -249,12 +259,12 @@ func genMem(r *Rng) Sx {
 		}
 	}
 	dirt := 0
-	switch r.Intn(4) {
-	case 0:
+	switch r.Intn(6) {
+	case 0, 1, 2:
 		dirt = r.Range(32, 16384)
-	case 1:
+	case 3:
 		dirt = 16384
-	case 2:
+	case 4:
 		dirt = 20000
 	}
 	return L(I(1), I(int64(dirt)), ops)
@@ -275,9 +285,9 @@ func (a *asm) push(v uint64) {
 	a.b = append(a.b, byte(0x60+7-i))
 	a.b = append(a.b, buf[i:]...)
 }
-func (a *asm) push2(v int)      { a.b = append(a.b, 0x61, byte(v>>8), byte(v)) }
-func (a *asm) push32(w []byte)  { a.b = append(append(a.b, 0x7f), w...) }
-func (a *asm) call(addr int)    { a.push2(addr); a.op(0x5a, 0xf1) } // PUSH2 addr GAS CALL
+func (a *asm) push2(v int)     { a.b = append(a.b, 0x61, byte(v>>8), byte(v)) }
+func (a *asm) push32(w []byte) { a.b = append(append(a.b, 0x7f), w...) }
+func (a *asm) call(addr int)   { a.push2(addr); a.op(0x5a, 0xf1) } // PUSH2 addr GAS CALL
 func progSx(code, input []byte, gas uint64, tmpl int, expect []byte, has bool) Sx {
 	e := L()
 	if has {
@@ -427,7 +437,7 @@ func progRandom(r *Rng) Sx {
 	h := 0
 	n := r.Range(5, 60)
 	bin := []byte{0x01, 0x02, 0x03, 0x04, 0x05, 0x06, 0x07, 0x0a, 0x0b, 0x10, 0x11, 0x12, 0x13, 0x14, 0x16, 0x17, 0x18, 0x1a, 0x1b, 0x1c, 0x1d}
-	env := []byte{0x30, 0x32, 0x33, 0x34, 0x36, 0x38, 0x3a, 0x3d, 0x41, 0x42, 0x43, 0x44, 0x45, 0x46, 0x47, 0x48, 0x58, 0x59, 0x5a}
+	env := []byte{0x30, 0x32, 0x33, 0x34, 0x36, 0x38, 0x3a, 0x3d, 0x41, 0x42, 0x43, 0x44, 0x46, 0x47, 0x48, 0x58, 0x59, 0x5a}
 	for i := 0; i < n && h < 900; i++ {
 		switch x := r.Intn(100); {
 		case x < 22:
@@ -511,7 +521,11 @@ func progRandom(r *Rng) Sx {
 				h--
 			}
 		default:
-			a.op(byte(r.U64())) // anything, also undefined opcodes and truncated PUSH data
+			b := byte(r.U64()) // anything, also undefined opcodes and truncated PUSH data
+			if b == 0x45 {
+				b = 0x44 // GASLIMIT is the block gas limit, which core/vm/runtime ties to the call's gas: depth-dependent by construction
+			}
+			a.op(b)
 			h = max(h-1, 0)
 		}
 	}
@@ -695,10 +709,10 @@ func gen(r *Rng, tier string, emit func(Sx)) {
 	for i := 0; i < 1200*mul; i++ {
 		emit(genArenaWalk(r.Fork()))
 	}
-	for i := 0; i < 12*mul; i++ {
+	for i := 0; i < 6*mul; i++ {
 		emit(genArenaLimit(r.Fork()))
 	}
-	for i := 0; i < 1500*mul; i++ {
+	for i := 0; i < 1200*mul; i++ {
 		emit(genMem(r.Fork()))
 	}
 	for i := 0; i < 200*mul; i++ {
